@@ -13,11 +13,12 @@ import enc
 import gen
 from props import tmlib as T
 from props.c03 import Batch
+from props.c13 import time_limit
 from props.common import load_def
 
 RULE = ("random valid multitape tables (1-3 tapes, deterministic or 1-2 alternatives, 1-3 working + 1-2 final states, 2-4 tape "
-        "symbols without '^' and '_' - in about one table in seven they are control characters and punctuation such as newline, "
-        "tab, backslash - five direction profiles incl. left-heavy and zigzag; every third table is run again with another symbol as its blank; tables whose alternatives differ in the target state "
+        "symbols - in about one table in seven they are control characters and punctuation such as newline, tab, backslash, "
+        "and the characters '^' and '_' that the extended tape uses as markers by default - five direction profiles incl. left-heavy and zigzag; every third table is run again with another symbol as its blank; tables whose alternatives differ in the target state "
         "only, with small negative integers as state names) on '' and random words, budget 300 "
         "dequeued configurations for each run; a case counts for the verdict comparison only when the native run halts within the "
         "budget; distinct = distinct (canonical table, word); non-trivial = native run halts after >= 2 configurations and some "
@@ -31,9 +32,20 @@ def budget(ctx):
     return 300
 
 
-def ext_codes(s, sy):
+def markers(md, word):
+    """The head and separator characters read_input_as_ntm uses for this machine and input: '^' and '_' unless one of
+    them can occur on a tape (a tape symbol or a character of the input), then the first spare characters from '!' on
+    (the rule of the repaired code; in the model the two markers are constructors of their own, distinct from every symbol)."""
+    used = set(md["tape_symbols"]) | set(word)
+    spare = (chr(c) for c in itertools.count(33) if chr(c) not in used and chr(c) not in "^_")
+    head = HEAD if HEAD not in used else next(spare)
+    sep = SEP if SEP not in used else next(spare)
+    return head, sep
+
+
+def ext_codes(s, sy, mk=(HEAD, SEP)):
     # a symbol that is not in the machine's tape alphabet at all gets a code the model never produces
-    return [0 if c == HEAD else 1 if c == SEP else (sy(c) + 2 if c in sy.idx else 9999) for c in s]
+    return [0 if c == mk[0] else 1 if c == mk[1] else (sy(c) + 2 if c in sy.idx else 9999) for c in s]
 
 
 def kind_of(out):
@@ -45,8 +57,9 @@ def kind_of(out):
     return "reject" if out[1] == enc.REJECT else "error:" + out[2]
 
 
-def decode_ext(s, blank):
+def decode_ext(s, blank, mk=(HEAD, SEP)):
     """extended tape -> tuple of canonical tapes, or None when a segment is malformed."""
+    HEAD, SEP = mk
     if not s.endswith(SEP):
         return None
     out = []
@@ -78,16 +91,20 @@ def boundary_moves(md, cfgs):
 def check(ctx, batch, md, word, B, tag):
     m = T.mk(md, "mntm")
     st, sy = enc.Renum(T.names_of(md)), T.symmap(md, word)
-    n_items, n_out = T.consume(m.read_input_stepwise(word), B + 1)
+    # (a single next() that never comes back - a loop inside the library - ends as error:TimeoutError, never as a hang)
+    with time_limit(30):
+        n_items, n_out = T.consume(m.read_input_stepwise(word), B + 1)
     if n_out[0] == "limit":
         n_items = n_items[:B]
     n_cfgs = [next(iter(s)) for s in n_items]
-    s_items, s_out = T.consume(m.read_input_as_ntm(word), B + 1)
+    with time_limit(30):
+        s_items, s_out = T.consume(m.read_input_as_ntm(word), B + 1)
     if s_out[0] == "limit":
         s_items = s_items[:B]
     s_cfgs = [next(iter(s)) for s in s_items]
     s_raw = [(c.state, "".join(c.tape.tape), c.tape.current_position) for c in s_cfgs]
-    i_ys = [[st(q), ext_codes(e, sy), p] for q, e, p in s_raw]
+    mk = markers(md, word)
+    i_ys = [[st(q), ext_codes(e, sy, mk), p] for q, e, p in s_raw]
     nk, sk = kind_of(n_out), kind_of(s_out)
     left, right = boundary_moves(md, n_cfgs)
     det = all(len(alts) == 1 for row in md["table"].values() for alts in row.values())
@@ -118,7 +135,7 @@ def check(ctx, batch, md, word, B, tag):
                             f"(lengths {len(i_ys)}/{len(m_ys)})")
             confirmed = False
             if k < len(s_raw):
-                dec = decode_ext(s_raw[k][1], md["blank"])
+                dec = decode_ext(s_raw[k][1], md["blank"], mk)
                 if dec is None:
                     confirmed = True
                     problems.append("the implementation's extended tape is malformed there")
@@ -148,6 +165,48 @@ def check(ctx, batch, md, word, B, tag):
     batch.add(item, cont)
 
 
+def check_marker_characters(ctx, md, word, B):
+    """An input that contains '^' or '_' although they are not tape symbols (the native run then rejects at once or
+    never reads them): only the two verdicts of the implementation are compared (the word is outside the model's alphabet)."""
+    m = T.mk(md, "mntm")
+    with time_limit(30):
+        n_items, n_out = T.consume(m.read_input_stepwise(word), B + 1)
+    with time_limit(30):
+        s_items, s_out = T.consume(m.read_input_as_ntm(word), B + 1)
+    nk, sk = kind_of(n_out), kind_of(s_out)
+    ctx.tally("marker_characters_in_input")
+    ctx.case(("markers", repr(md["table"]), word), nontrivial=len(word) >= 2, validated=nk != "limit")
+    if nk != "limit" and sk != "limit" and nk != sk:
+        ctx.violation(f"read_input_as_ntm ends with {sk} but the native multitape run ends with {nk} on the input {word!r}, "
+                      "which contains a character the extended tape uses as a marker by default",
+                      {"kind": "markers", "machine": repr(md), "word": word, "budget": B, "native": nk, "simulation": sk})
+
+
+def fixed_marker_finding(ctx):
+    """Finding repaired in /repo ("fix: read_input_as_ntm picks extended-tape markers that are not tape symbols"): a valid
+    machine with '^' among its tape symbols; the reproducer runs on every pass and must agree."""
+    for sym in "^_":
+        md = dict(states=["q", "f"], finals=["f"], input_symbols="a" + sym, tape_symbols=".a" + sym, blank=".", initial="q",
+                  k=1, profile="hand",
+                  table={"q": {("a",): [("q", (("a", "R"),))], (sym,): [("q", ((sym, "R"),))], (".",): [("f", ((".", "N"),))]}})
+        m = T.mk(md, "mntm")
+        w = "a" + sym
+        native = m.accepts_input(w)
+        with time_limit(30):
+            s_items, s_out = T.consume(m.read_input_as_ntm(w), 50)
+        if kind_of(s_out) != ("accept" if native else "reject"):
+            k = next((k for k in ctx.known if k["id"] == "mntm_marker_symbols_as_tape_symbols"), None)
+            what = (f"one-tape MNTM with {sym!r} as a tape symbol on input {w!r}: native run accepts={native}, "
+                    f"read_input_as_ntm ends with {kind_of(s_out)}")
+            if k is not None and k["status"] == "open":
+                ctx.report_known(k)
+            else:
+                ctx.violation("fixed finding mntm_marker_symbols_as_tape_symbols reproduces again: " + what,
+                              {"kind": "markers", "machine": repr(md), "word": w, "budget": 50,
+                               "native": "accept" if native else "reject", "simulation": kind_of(s_out)})
+            return
+
+
 HAND = [
     # row 11 of DESIGN section 8: one tape, first move goes left from cell 0
     dict(states=["q", "f"], finals=["f"], input_symbols="a", tape_symbols=".a", blank=".", initial="q", k=1, profile="hand",
@@ -170,6 +229,7 @@ def run(ctx):
     rng = ctx.rng
     B = budget(ctx)
     batch = Batch(ctx, size=80)
+    fixed_marker_finding(ctx)
     for md in HAND:
         for w in (["", "a", "aa", "aaa"] if md["input_symbols"] == "a" else ["", "a", "ab", "abba"]):
             check(ctx, batch, md, w, B, "hand")
@@ -181,6 +241,9 @@ def run(ctx):
             if any(c not in md["tape_symbols"] for c in w):
                 w = "".join(c for c in w if c in md["tape_symbols"])    # '^'/'_' never occur; foreign 'Z' dropped
             check(ctx, batch, md, w, B, "random")
+            if i % 4 == 0 and w:
+                j = rng.randrange(len(w) + 1)
+                check_marker_characters(ctx, md, w[:j] + rng.choice("^_") + w[j:], B)
             if i % 3 == 0:
                 # the same machine with another symbol as the blank, run right afterwards in the same process
                 nb = next(c for c in "~#. :" if c not in md["tape_symbols"])
@@ -213,6 +276,10 @@ def run(ctx):
 
 
 def replay(ctx, case):
+    if case.get("kind") == "markers":
+        check_marker_characters(ctx, load_def(case["machine"]), case["word"], case["budget"])
+        print("replay:", "VIOLATION reproduced" if ctx.violations else "no disagreement")
+        return
     batch = Batch(ctx, size=1)
     md = load_def(case["machine"])
     w, B = case["word"], case["budget"]
